@@ -837,7 +837,6 @@ impl KTuple {
     /// Concat self with another sequence while consuming self
     pub fn k_concat(self, other: &Self, k: usize) -> Self {
         let terminals = self.terminals.k_concat(&other.terminals, k);
-        let k = terminals.inner().k_len(k);
         Self { terminals, k }
     }
 
